@@ -6,7 +6,7 @@ CFG = {
     "run_modules": ["RunC19"],
     "rule": "real `mlar keygen --seed S` for S in {'', ascii, unicode, 10 KiB random text} and real `mlar keyderive` for parents in "
             "{every private key of /repo/samples (X25519/Ed25519, DER/PEM), keys written by `mlar keygen` with and without seed, "
-            "OpenSSL-style clamped keys in DER and PEM} x path lists of length 1-5 over {'', 'a', 'App X', 'v1.2.3', unicode, "
+            "OpenSSL-style clamped keys in DER and PEM, a PEM file holding two PRIVATE KEY blocks (the parent key is the first)} x path lists of length 1-5 over {'', 'a', 'App X', 'v1.2.3', unicode, "
             "'-x', '--path', ' ', the salt itself, 300 octets, random unicode} incl. repeated paths; quick: 7 seeds and every parent once "
             "plus one 3-path case per parent class; thorough: 41 seeds, 120+ derivations; plus 3 CLI panics (no path, not a key); "
             "every case is non-trivial; distinct = distinct (seed) / (parent file, path list)",
